@@ -236,6 +236,19 @@ class Runner:
             if key in post.loose_bytes and post.loose_bytes[key] != self.pool.contents[op['c']]:
                 self._fail('C09', 'damaged-loose-not-repaired',
                            f're-adding cid {op["c"]} left a loose file with {len(post.loose_bytes[key])} wrong bytes in place')
+        elif op['op'] == 'addPacked' and not real_out.startswith('raised'):
+            for k in set(op['cs']):
+                if (rc.name, k) in self.pre_damaged:
+                    try:
+                        got = rc.c.get_object_content(rc.key(k))
+                    except Exception as exc:  # pylint: disable=broad-except
+                        got = f'{type(exc).__name__}'
+                    if got != self.pool.contents[k]:
+                        self._fail('C09', 'damaged-loose-not-repaired-packed',
+                                   f'cid {k} was stored again directly to a pack while its loose copy was damaged: no correct copy is in place '
+                                   f'(reads give {got if isinstance(got, str) else str(len(got)) + " bytes"})')
+        # a damaged loose file that is gone (cleaned, deleted) is no longer a damaged copy
+        self.damaged = {(nm, k) for (nm, k) in self.damaged if nm != rc.name or rc.key(k) in post.loose_bytes}
         line = self._model_line(rc, op, pre, post)
         rec = dict(op)
         if getattr(self, 'check_ir', False) and line is not None:
